@@ -70,7 +70,7 @@ func pickProverTopos(r *vcore.Run, topos []*topo, n int) []*topo {
 	var out []*topo
 	seenPat := map[string]bool{}
 	for _, t := range topos {
-		if t.Hash != "mimc" || t.N > 8 || t.N < 2 || t.skip.Load() {
+		if t.Hash != "mimc" || t.N > 8 || t.N < 2 {
 			continue
 		}
 		if !seenPat[t.DepPattern] || len(out) < n/2 {
@@ -154,7 +154,7 @@ func runTestEngine(r *vcore.Run, topos []*topo) {
 		if done == n {
 			break
 		}
-		if t.N > 16 || t.N < 2 || t.skip.Load() {
+		if t.N > 16 || t.N < 2 {
 			continue
 		}
 		k := &kits[i%len(kits)]
